@@ -59,6 +59,15 @@ CHECKS.update({
     "C10": dict(technique="TLA+ spec Restore.tla (resumable reader state machine under read faults; restore output protocol under file corruption): TLC exhaustive; real replicas corrupted (delete/truncate/flip at offsets) and read-faulted through a wrapping client, restored by the real Replica.Restore in child processes; TLC judge RestoreObs.tla",
         design="7/C10", note="Quick tier: every 64th offset + structural boundaries, read faults per offset class (each injected fault costs >= 250 ms of production back-off). " + TB,
         text="delivered is always a prefix of the file and the outcome is error or the whole file (reader model); outcome is error with no output or success with the original (protocol model); on the real code every corruption / read-fault case must end in an error with no file at the output path (pre-existing output untouched) or in the reference database, and a crash is not an error report."),
+    "C03": dict(technique="TLA+ spec FsProtocol.tla (volatile/durable file system, the five publish protocols, Kill anywhere): TLC exhaustive; the real litestream process killed (ptrace supervisor) immediately before every FS-mutating syscall of model-derived scenarios, inspected, restarted; TLC judge KillObs.tla",
+        design="7/C03", note="Scenarios S1,S3,S4,S5,S6,S7,S9 of DESIGN 11a; quick tier: every 7th kill point + all within 3 syscalls of a rename/unlink; a kill run whose syscall prefix differs from the reference is recorded as divergence. " + TB,
+        text="NoPartialFinalName under Kill between any two syscall-level actions (model); on the real process every kill point leaves every final-named LTX file decodable, no partial restore output or sidecar, the last acknowledged state restorable, and a restarted process resumes without repair and its next acknowledgement restores the source."),
+    "C11": dict(technique="TLA+ spec FsProtocol.tla (PowerFail reverts to the durable view): TLC exhaustive; real strace -f -y syscall traces of the litestream process for each scenario parsed to events; TLC judge FsTraceObs.tla evaluates the flush-order rules at every rename / success mark / unlink",
+        design="7/C11", note="The property states ordering rules over syscalls; real power loss is not simulated on real disks. " + TB,
+        text="R1: content fsynced after the last write and before every rename to a final name; R2: every directory an operation renamed in is fsynced before the operation reports success; R3: a published LTX file is unlinked only after a superseding file is durable - evaluated in TLA+ on the syscall trace of the real process for every scenario."),
+    "C18": dict(technique="TLA+ spec Vfs.tla (page index / pending index / poll of level 0 and 1 / open from a plan; as-is and with candidate repairs): TLC exhaustive; its behaviours + directed schedules driven on the REAL VFSFile (cgo, tags vfs verif) with a 1-page cache and a gated replica client granting one poll round at a time; TLC judges VfsObs.tla (verdict) and Trace_Vfs.tla (conformance)",
+        design="7/C18", note="Reference = the real Replica.Restore at the VFS's reported TXID with the header bytes the VFS rewrites masked. " + TB,
+        text="Served (every page <= commit is the restore's page at the reported position) and FileSizeOK at open and after every poll, across growth, partial shrink, VACUUM, compaction and retention of the files being read; every observation of the real VFSFile is judged in TLA+ and replayed through the as-is model (0 divergences)."),
     "C19": dict(technique="TLA+ spec RestoreV3.tla/RestoreV3Plan.tla (transcription of the 0.3.x restore planning + declarative statement): TLC enumerates all small layouts; same layouts materialised as real lz4 snapshot/WAL-segment files from real SQLite histories and restored by the real code; TLC judge RestoreV3Obs.tla",
         design="7/C19", note="Layouts <= 2 generations, <= 2 snapshots, <= 3 indices, <= 3 segments per index, one segment removed, all timestamps; file replica client. " + TB,
         text="The transcription of findBestSnapshotV3 / filterWALSegmentsV3 / the contiguity walk / format arbitration is checked against the declarative statement on every small layout; each layout is built physically from a real history and restored with the real Replica.Restore; the TLA+ judge requires the real outcome to satisfy the declarative statement (verdict) and to equal the transcription (binding)."),
